@@ -90,6 +90,93 @@ Proof.
     rewrite <- app_assoc. cbn [app]. rewrite (members_back kjs IH f rest ltac:(lia)). reflexivity.
 Qed.
 
+(* ---------- the same for the JSON reader's own events ---------- *)
+
+Lemma jevs_head j : exists e t, jevs j = e :: t /\ e <> ESeqEnd /\ e <> EMapEnd.
+Proof. destruct j; cbn [jevs]; eexists; eexists; (split; [reflexivity|split; discriminate]). Qed.
+
+Lemma jevs_len_pos j : 1 <= length (jevs j).
+Proof. destruct (jevs_head j) as (e & t & -> & _). cbn. lia. Qed.
+
+Definition P_jtree (j : jval) : Prop :=
+  forall fuel rest, length (jevs j) <= fuel -> tree_of fuel (jevs j ++ rest) = Some (j, rest).
+
+Lemma jelems_back : forall js, Forall P_jtree js ->
+  forall fuel rest, length (flat_map jevs js) + 1 <= fuel ->
+    elems_of fuel (flat_map jevs js ++ ESeqEnd :: rest) = Some (js, rest).
+Proof.
+  induction js as [|j js IH]; intros HP fuel rest Hf.
+  - destruct fuel as [|f]; [cbn in Hf; lia|]. reflexivity.
+  - inversion HP as [|? ? Pj Pjs]; subst. cbn [flat_map] in *. rewrite app_length in Hf.
+    pose proof (jevs_len_pos j) as Hpos.
+    destruct fuel as [|f]; [lia|]. rewrite <- app_assoc.
+    destruct (jevs_head j) as (e & t & E & N1 & N2).
+    assert (Hstep : elems_of (S f) (jevs j ++ flat_map jevs js ++ ESeqEnd :: rest) =
+                    match tree_of f (jevs j ++ flat_map jevs js ++ ESeqEnd :: rest) with
+                    | Some (v, r) => match elems_of f r with Some (vs, r') => Some (v :: vs, r') | None => None end
+                    | None => None
+                    end).
+    { rewrite E. cbn [app elems_of]. destruct e; try reflexivity; congruence. }
+    rewrite Hstep, (Pj f _ ltac:(lia)), (IH Pjs f rest ltac:(lia)). reflexivity.
+Qed.
+
+Lemma jmembers_back : forall kjs, Forall (fun kj : bytes * jval => P_jtree (snd kj)) kjs ->
+  forall fuel rest,
+    length (flat_map (fun kv : bytes * jval => let (k, x) := kv in EStr k :: jevs x) kjs) + 1 <= fuel ->
+    members_of fuel (flat_map (fun kv : bytes * jval => let (k, x) := kv in EStr k :: jevs x) kjs ++ EMapEnd :: rest) = Some (kjs, rest).
+Proof.
+  induction kjs as [|[k j] kjs IH]; intros HP fuel rest Hf.
+  - destruct fuel as [|f]; [cbn in Hf; lia|]. reflexivity.
+  - inversion HP as [|? ? Pj Pjs]; subst. cbn [flat_map snd] in *. cbn [length app] in Hf. rewrite app_length in Hf.
+    pose proof (jevs_len_pos j) as Hpos.
+    destruct fuel as [|f]; [lia|]. cbn [app]. rewrite <- app_assoc. cbn [members_of].
+    rewrite (Pj f _ ltac:(lia)), (IH Pjs f rest ltac:(lia)). reflexivity.
+Qed.
+
+(* the JSON writer's view of the JSON reader's events is the original value *)
+Theorem tree_of_json_events : forall j, P_jtree j.
+Proof.
+  induction j as [ |b|n|z|b|s|js IH|kjs IH] using jval_ind2; unfold P_jtree; intros fuel rest Hf; cbn [jevs] in *;
+    try (destruct fuel as [|f]; [cbn in Hf; lia|]; reflexivity).
+  - destruct fuel as [|f]; [cbn in Hf; lia|]. cbn [app tree_of].
+    cbn [length] in Hf. rewrite app_length in Hf. cbn [length] in Hf.
+    rewrite <- app_assoc. cbn [app]. rewrite (jelems_back js IH f rest ltac:(lia)). reflexivity.
+  - destruct fuel as [|f]; [cbn in Hf; lia|]. cbn [app tree_of].
+    cbn [length] in Hf. rewrite app_length in Hf. cbn [length] in Hf.
+    rewrite <- app_assoc. cbn [app]. rewrite (jmembers_back kjs IH f rest ltac:(lia)). reflexivity.
+Qed.
+
+Lemma json_of_docs_jevs fmt js : json_of_docs fmt (map jevs js) = Some (jwrite_docs fmt js).
+Proof.
+  unfold json_of_docs, jwrite_docs. rewrite map_map.
+  assert (E : map (fun j => tree_of (S (length (jevs j))) (jevs j)) js = map (fun j => Some (j, [])) js).
+  { apply map_ext. intros j. pose proof (tree_of_json_events j (S (length (jevs j))) [] ltac:(lia)) as H.
+    now rewrite app_nil_r in H. }
+  rewrite E. clear E.
+  assert (F : forallb (fun t : option (jval * list ev) => match t with Some (_, []) => true | _ => false end)
+                (map (fun j => Some (j, [])) js) = true).
+  { induction js as [|j js IH]; [reflexivity|]. cbn [map forallb]. exact IH. }
+  rewrite F. f_equal. induction js as [|j js IH]; [reflexivity|]. cbn [map flat_map]. now rewrite IH.
+Qed.
+
+(* xt's JSON output is a fixed point of JSON -> JSON (floats under the read-back
+   premise): reading it back with either loop and writing what was read gives
+   the same bytes. *)
+Theorem json_output_is_a_fixed_point :
+  forall (fmt_f64 : N -> bytes) (float_ok : N -> bool),
+    (forall b, float_ok b = true -> forall f depth tail, val_end tail ->
+       parse_value (S f) depth (fmt_f64 b ++ tail) = ([EF64 b], JOk tail)) ->
+    (forall b, float_ok b = true ->
+       exists c r, fmt_f64 b = c :: r /\ is_ws c = false /\ (c =? 93)%N = false /\ (c =? 125)%N = false /\ (c =? 44)%N = false) ->
+    forall js : list jval, Forall (writable float_ok) js ->
+      json_of_docs fmt_f64 (fst (json_reader (jwrite_docs fmt_f64 js))) = Some (jwrite_docs fmt_f64 js) /\
+      json_of_docs fmt_f64 (fst (json_slice (jwrite_docs fmt_f64 js))) = Some (jwrite_docs fmt_f64 js).
+Proof.
+  intros fmt ok H1 H2 js HW.
+  rewrite (json_reader_reads_docs fmt ok H1 H2 js HW), (json_slice_reads_docs fmt ok H1 H2 js HW).
+  cbn [fst]. split; apply json_of_docs_jevs.
+Qed.
+
 Section RoundTrip.
   Variable fmt : N -> bytes.
 
